@@ -68,6 +68,15 @@ def canon_ds(ds):
     return sorted(out)
 
 
+def canon_mem(ds):
+    """canon_ds of what a harvester holds in memory; a (lazy) dataset that can no longer be evaluated is
+    reported as such instead of crashing the harness"""
+    try:
+        return canon_ds(ds)
+    except Exception as e:  # noqa
+        return [["unreadable", f"{type(e).__name__}: {str(e)[:100]}"]]
+
+
 def coq_pmap(m):
     return "[" + "; ".join(f"({core.zlist(k)}, {v})" for k, v in m) + "]"
 
@@ -174,12 +183,21 @@ def run_sequence(c, tmp, rng, idx):
     def spell():
         return rng.choice([path, path, alt])
 
+    # some harvesters work lazily (chunks=...): what they hold in memory is backed by the file until computed
+    chunked = engine == "h5netcdf" and not percall and rng.random() < 0.2
+    ck = {"chunks": 1} if chunked else {}
+
+    if chunked:
+        # (save_merge_ds rewrites the file in place, which HDF5 refuses while a lazy harvester of the same
+        # process holds it open: not part of the statement, left out of lazy sequences)
+        ops = [o for o in ops if o[0] != "save_merge"] or [("new_session", 0)]
+
     def new_h():
-        return xyzpy.Harvester(runner(0), data_name=spell(), engine=ctor_engine)
+        return xyzpy.Harvester(runner(0), data_name=spell(), engine=ctor_engine, **ck)
     hs = [new_h() for _ in range(2)]
     model_ops, obs = [], []
     abstract, synced_ok = None, True        # the property's own bookkeeping (dict point -> value)
-    rep = {"engine": engine, "name": name, "ops": [list(map(str, o)) for o in ops], "engine_per_call": percall}
+    rep = {"engine": engine, "name": name, "ops": [list(map(str, o)) for o in ops], "engine_per_call": percall, "chunks": chunked}
 
     def file_ds():
         p = xyzpy.manage.auto_add_extension(path, engine)
@@ -218,7 +236,7 @@ def run_sequence(c, tmp, rng, idx):
             new = new_points(None, None, op[3], op[2])
         elif kind == "save_merge":
             new = new_points(op[1], op[2], op[3])
-        mem_before = canon_ds(hs[op[1]]._full_ds) if kind in ("combos", "cases", "add_ds", "add_fail") else None
+        mem_before = canon_mem(hs[op[1]]._full_ds) if kind in ("combos", "cases", "add_ds", "add_fail") else None
         try:
             if kind == "combos":
                 _, who, a, b, v, pol, sync = op
@@ -270,8 +288,10 @@ def run_sequence(c, tmp, rng, idx):
             model_ops.append("HNewSession" if op[1] == 0 else None)
         elif kind == "drop":
             model_ops.append(f"HDrop {DA} {op[2]}" if op[1] == 0 else f"HExtDrop {DA} {op[2]}")
-        mem0 = canon_ds(hs[0]._full_ds)
+        mem0 = canon_mem(hs[0]._full_ds)
         fil = canon_ds(file_ds())
+        if mem0 and mem0[0][0] == "unreadable":
+            c.violation("memory-unreadable", f"full_ds held by the harvester can no longer be evaluated: {mem0[0][1]}", rep)
         if model_ops[-1] is not None:
             obs.append([raised, mem0, fil])
         # ---- the property statement
@@ -293,7 +313,7 @@ def run_sequence(c, tmp, rng, idx):
                     elif fil != want:
                         c.violation("disk-not-the-policy-merge",
                                     f"file holds {fil}, the policy merge of everything harvested is {want}", rep)
-                    elif who is not None and canon_ds(hs[who]._full_ds) != fil:
+                    elif who is not None and canon_mem(hs[who]._full_ds) != fil:
                         c.violation("memory-differs-from-disk", "full_ds in memory differs from the file after a synced harvest", rep)
         elif kind == "add_fail":
             held = before_file if before_file is not None else mem_before
